@@ -521,3 +521,8 @@ func (f *flag) WaitFor(d time.Duration) bool {
 	ev.Cancel()
 	return f.set
 }
+
+// mkKeyUnchecked makes a key whose cipher may be unsupported (config poison).
+func mkKeyUnchecked(id, cipher, secret string) *Key {
+	return &Key{ID: id, Cipher: cipher, Secret: secret}
+}
